@@ -461,7 +461,10 @@ func (d *Driver) describe(m *model, od opData) string {
 		return fmt.Sprintf("%d classes", len(m.classes))
 	}
 	cl := m.classes[od.ci]
-	s := fmt.Sprintf("class owner %s (issuer %s), sender %s = %s", actors[cl.owner], actors[cl.issuer], actors[od.by], role(cl, od.by))
+	s := fmt.Sprintf("class owner %s (issuer %s), sender %s", actors[cl.owner], actors[cl.issuer], actors[od.by])
+	if od.kind != "transfer" && od.kind != "burn" {
+		s += " = " + role(cl, od.by)
+	}
 	if od.kind != "mintnew" && od.kind != "handover" {
 		t := cl.tokens[od.ti]
 		s += fmt.Sprintf(", supply %s, balances A=%s B=%s X=%s, amount %d", t.supply, t.bal[0], t.bal[1], t.bal[2], od.amt)
@@ -762,7 +765,7 @@ func Parts() []mc.Part {
 	auth := Variant{Name: "authority-and-ids", MaxClasses: 2, MaxTokens: 2,
 		Rule: "state with >= 2 classes or a class whose owner is not its issuer; distinct by canonical hash of the mt store and the reference ledger"}
 	return []mc.Part{
-		mc.ExplorePart(ledger.Name, New(ledger), 4, 5, false, ledger.Rule),
-		mc.ExplorePart(auth.Name, New(auth), 5, 6, false, auth.Rule),
+		mc.ExplorePart(ledger.Name, New(ledger), 5, 6, false, ledger.Rule),
+		mc.ExplorePart(auth.Name, New(auth), 6, 8, false, auth.Rule),
 	}
 }
